@@ -1,0 +1,209 @@
+//go:build verif
+
+// Package verifhook holds the instrumentation points of the verification
+// machinery in /verif (build tag `verif`): in-flight and pending-token
+// counters used to detect quiescence, per-key counters, a schedule log, and
+// named gates/crash points.
+package verifhook
+
+import (
+	"os"
+	"strconv"
+	"strings"
+	"sync"
+	"sync/atomic"
+	"syscall"
+)
+
+var (
+	inflight int64
+	pending  int64
+	seq      int64
+
+	mu       sync.Mutex
+	keyed    = map[string]map[uint64]int64{}
+	hits     = map[string]int64{}
+	regions  = map[string]int64{}
+	gates    = map[string]*gate{}
+	logOn    int32
+	schedLog []string
+
+	crashPoint string
+	crashHit   int64
+)
+
+type gate struct {
+	parked  chan struct{} // closed when a goroutine has parked
+	release chan struct{} // closed to let it go
+}
+
+func init() {
+	// VERIF_CRASH=<point>:<n>  -> SIGKILL self at the n-th hit of <point>
+	if v := os.Getenv("VERIF_CRASH"); v != "" {
+		parts := strings.SplitN(v, ":", 2)
+		crashPoint = parts[0]
+		crashHit = 1
+		if len(parts) == 2 {
+			if n, err := strconv.ParseInt(parts[1], 10, 64); err == nil {
+				crashHit = n
+			}
+		}
+	}
+}
+
+// Enter marks the start of a worker region.
+func Enter(region string) {
+	atomic.AddInt64(&inflight, 1)
+	if atomic.LoadInt32(&logOn) != 0 {
+		logEvent("enter " + region)
+	}
+}
+
+// Exit marks the end of a worker region.
+func Exit(region string) {
+	atomic.AddInt64(&inflight, -1)
+	mu.Lock()
+	regions[region]++
+	mu.Unlock()
+}
+
+// Sent records that a wake-up token or work item was handed over.
+func Sent(token string) { atomic.AddInt64(&pending, 1) }
+
+// Taken records that the turn triggered by a token has completed.
+func Taken(token string) { atomic.AddInt64(&pending, -1) }
+
+// CountKey increments the counter name[key].
+func CountKey(name string, key uint64) {
+	mu.Lock()
+	m := keyed[name]
+	if m == nil {
+		m = map[uint64]int64{}
+		keyed[name] = m
+	}
+	m[key]++
+	mu.Unlock()
+}
+
+// At is a named point: hit counter, crash point and gate.
+func At(point string) {
+	mu.Lock()
+	hits[point]++
+	n := hits[point]
+	g := gates[point]
+	if g != nil {
+		delete(gates, point)
+	}
+	mu.Unlock()
+	if atomic.LoadInt32(&logOn) != 0 {
+		logEvent("at " + point)
+	}
+	if crashPoint == point && n == crashHit {
+		_ = syscall.Kill(os.Getpid(), syscall.SIGKILL)
+		select {}
+	}
+	if g != nil {
+		close(g.parked)
+		<-g.release
+	}
+}
+
+func logEvent(s string) {
+	n := atomic.AddInt64(&seq, 1)
+	mu.Lock()
+	schedLog = append(schedLog, strconv.FormatInt(n, 10)+" "+s)
+	mu.Unlock()
+}
+
+// ---- control API used by the harness ----
+
+// Inflight returns the number of worker regions currently executing.
+func Inflight() int64 { return atomic.LoadInt64(&inflight) }
+
+// Pending returns tokens handed over whose turn has not completed.
+func Pending() int64 { return atomic.LoadInt64(&pending) }
+
+// Keyed returns a copy of counter name.
+func Keyed(name string) map[uint64]int64 {
+	mu.Lock()
+	defer mu.Unlock()
+	out := map[uint64]int64{}
+	for k, v := range keyed[name] {
+		out[k] = v
+	}
+	return out
+}
+
+// KeyedGet returns counter name[key].
+func KeyedGet(name string, key uint64) int64 {
+	mu.Lock()
+	defer mu.Unlock()
+	return keyed[name][key]
+}
+
+// Hits returns the hit count of a point.
+func Hits(point string) int64 {
+	mu.Lock()
+	defer mu.Unlock()
+	return hits[point]
+}
+
+// Regions returns completed-region counts.
+func Regions() map[string]int64 {
+	mu.Lock()
+	defer mu.Unlock()
+	out := map[string]int64{}
+	for k, v := range regions {
+		out[k] = v
+	}
+	return out
+}
+
+// Arm installs a one-shot gate: the next goroutine reaching point parks.
+// It returns a channel closed when a goroutine has parked and a release function.
+func Arm(point string) (parked <-chan struct{}, release func()) {
+	g := &gate{parked: make(chan struct{}), release: make(chan struct{})}
+	mu.Lock()
+	gates[point] = g
+	mu.Unlock()
+	var once sync.Once
+	return g.parked, func() {
+		once.Do(func() {
+			mu.Lock()
+			if gates[point] == g {
+				delete(gates, point)
+			}
+			mu.Unlock()
+			close(g.release)
+		})
+	}
+}
+
+// SetLog switches the schedule log on or off and clears it.
+func SetLog(on bool) {
+	var v int32
+	if on {
+		v = 1
+	}
+	atomic.StoreInt32(&logOn, v)
+	mu.Lock()
+	schedLog = nil
+	mu.Unlock()
+}
+
+// Log returns the schedule log.
+func Log() []string {
+	mu.Lock()
+	defer mu.Unlock()
+	return append([]string{}, schedLog...)
+}
+
+// Reset clears all counters (between harness sessions in one process).
+func Reset() {
+	mu.Lock()
+	keyed = map[string]map[uint64]int64{}
+	hits = map[string]int64{}
+	regions = map[string]int64{}
+	schedLog = nil
+	mu.Unlock()
+}
